@@ -489,8 +489,41 @@ func (g *Gen) collect(d int, valVar string) Clause {
 	return c
 }
 
+// directed: one pattern-operator node evaluated repeatedly with different
+// pattern values (loop variable, LET inside the loop, member of the row).
+func (g *Gen) directed() *Program {
+	pats := Arr(Str("a*"), Str("*c"), Str("??"), Str("*"), Str("abc"), Str("b*"), Str(""))
+	rx := Arr(Str("^a"), Str("c$"), Str("b+"), Str("x?a"), Str("^$"), Str("a.c"))
+	subj := []*E{Str("abc"), Str("ab"), Param("s"), Str(""), Str("bc")}[g.pick(5)]
+	neg := g.pick(3) == 0
+	q := &For{Val: "p", Src: pats}
+	var test *E
+	if g.pick(3) == 0 {
+		q.Src = rx
+		test = &E{K: "regex", Neg: neg, A: subj, B: Var("p")}
+		g.count("directed:regex-variable-pattern")
+	} else {
+		test = &E{K: "like", Neg: neg, A: subj, B: Var("p")}
+		g.count("directed:like-variable-pattern")
+	}
+	switch g.pick(3) {
+	case 0:
+		q.Ret = &Ret{E: test}
+	case 1:
+		q.Body = []Clause{{K: "filter", E: test}}
+		q.Ret = &Ret{E: Var("p")}
+	default:
+		q.Body = []Clause{{K: "let", Name: "m", E: test}}
+		q.Ret = &Ret{E: Arr(Var("p"), Var("m"))}
+	}
+	return &Program{For: q}
+}
+
 // Program generates LET statements followed by RETURN expr or a FOR loop.
 func (g *Gen) Program() *Program {
+	if g.Wild == 0 && g.pick(30) == 0 {
+		return g.directed()
+	}
 	p := &Program{}
 	ns := g.pick(3)
 	for i := 0; i < ns; i++ {
